@@ -63,6 +63,16 @@ static std::string safeStr(const expression_t& e)
     }
 }
 
+/// the same in the 3.x syntax (str(true))
+static std::string safeStrOld(const expression_t& e)
+{
+    try {
+        return e.str(true);
+    } catch (std::exception& ex) {
+        return std::string("<str(old) throws ") + ex.what() + ">";
+    }
+}
+
 static std::string tyTag(const expression_t& e)
 {
     type_t t = e.get_type();
@@ -457,6 +467,86 @@ struct Laws
         }
     }
 
+    /// a well-formed stand-in for the operand n of e: another constant of the same type, another symbol of the same type, or a copy of
+    /// another subtree of e of the same type (the tree stays printable: the printer may rely on the types of the operands)
+    expression_t standIn(const expression_t& n, const std::vector<expression_t>& all)
+    {
+        auto tstr = [](const type_t& t) -> std::string {
+            try {
+                return t.unknown() ? std::string() : t.str();
+            } catch (std::exception&) {
+                return std::string();
+            }
+        };
+        kind_t k = n.get_kind();
+        if (k == CONSTANT) {
+            std::string ty = tyTag(n);
+            if (ty == "D") return expression_t::create_double(n.get_double_value() != 0.0 ? -n.get_double_value() : 1.0, n.get_position());
+            if (ty != "I" && ty != "B") return expression_t();
+            int32_t v = n.get_value();
+            expression_t c = expression_t::create_constant(v == 0 ? 1 : (ty == "B" ? 0 : (v == INT32_MAX ? v - 1 : v + 1)), n.get_position());
+            c.set_type(n.get_type());
+            return c;
+        }
+        if (k == IDENTIFIER) {
+            symbol_t s = n.get_symbol();
+            if (s == symbol_t()) return expression_t();
+            std::string ts = tstr(s.get_type());
+            if (ts.empty()) return expression_t();
+            for (auto& cand : w.syms)
+                if (cand != s && cand.get_name() != s.get_name() && tstr(cand.get_type()) == ts) return expression_t::create_identifier(cand, n.get_position());
+            return expression_t();
+        }
+        std::string tn = tstr(n.get_type()), pn = plain(w, n, true);
+        if (tn.empty()) return expression_t();
+        for (auto& m : all)
+            if (!(m == n) && tstr(m.get_type()) == tn && plain(w, m, true) != pn) return m.clone_deeper();
+        return expression_t();
+    }
+
+    /// The text of a tree is a function of the tree as it is NOW, not of what was asked of it earlier: print a private copy of e
+    /// (the root and every node down to the operand, both syntaxes), replace the operand through operator[] (the reference the API
+    /// hands out), print again.  The changed copy is the same tree as one that got the operand before it was ever printed, and as
+    /// its own fresh deep clone: it is equal() to both and has to print like both.  Every operand of e in turn.
+    void changeAfterPrint(const expression_t& e, const std::string& tag)
+    {
+        std::vector<std::vector<int>> ps;
+        std::vector<int> cur;
+        paths(e, cur, ps);
+        std::vector<expression_t> all;
+        nodes(e, all);
+        for (auto& p : ps) {
+            if (p.empty()) continue;   // the root has no slot to be assigned through
+            expression_t n = at(e, p);
+            expression_t repl = standIn(n, all);
+            if (repl.empty()) continue;
+            expression_t a = e.clone_deeper(), b = e.clone_deeper();
+            expression_t pa = a, pb = b;
+            (void)safeStr(pa);
+            (void)safeStrOld(pa);
+            for (size_t d = 0; d + 1 < p.size(); ++d) {
+                pa = pa[p[d]];
+                pb = pb[p[d]];
+                (void)safeStr(pa);
+            }
+            (void)safeStr(pa[p.back()]);
+            pa[p.back()] = repl;
+            pb[p.back()] = repl.clone_deeper();   // b: changed first, printed afterwards
+            expression_t fresh = a.clone_deeper();
+            std::string where = tag + " @" + pathStr(p) + " := " + plain(w, repl, true);
+            ok("change_visible");
+            if (plain(w, a, true) != plain(w, b, true) || !a.equal(b) || !a.equal(fresh) || a.equal(e))
+                fail("change_visible", kindName(n.get_kind()), where + " got " + plain(w, a, true) + " want " + plain(w, b, true));
+            ok("equal_implies_same_text");
+            std::string ta = safeStr(a), tb = safeStr(b), tf = safeStr(fresh);
+            if (ta != tb || ta != tf)
+                fail("equal_implies_same_text", "changed-after-print",
+                     where + " the changed tree prints " + quote(ta) + ", the same tree changed before its first print " + quote(tb) + ", its deep clone " + quote(tf));
+            std::string oa = safeStrOld(a), ob = safeStrOld(b);   // the 3.x text is a text of its own
+            if (oa != ob) fail("equal_implies_same_text", "changed-after-print", where + " str(old) " + quote(oa) + " vs " + quote(ob));
+        }
+    }
+
     /// equality laws on e, its clones and all its single-node perturbations
     void equalLaws(const expression_t& e, const std::string& tag)
     {
@@ -709,6 +799,7 @@ int main(int argc, char** argv)
                 }
                 L.substLaws(e, repls, tag);
                 L.equalLaws(e, tag);
+                L.changeAfterPrint(e, tag);
                 // get_size: every reported child is accessible (walked above under _GLIBCXX_ASSERTIONS); none beyond (probe per kind)
                 std::vector<expression_t> ns;
                 nodes(e, ns);
